@@ -954,7 +954,9 @@ impl<'a> Interp<'a> {
             Expr::True => Ok(V::Bool(true)),
             Expr::False => Ok(V::Bool(false)),
             Expr::Num(n) => Ok(V::Num(*n)),
+            Expr::RawNum(_, n) => Ok(V::Num(*n)),
             Expr::Str(s) => Ok(vstr(s)),
+            Expr::RawStr(_, v) => Ok(vstr(v)),
             Expr::Interp(parts) => {
                 let mut out = String::new();
                 for p in parts {
